@@ -203,6 +203,18 @@ fn deviations<G: AffineRepr>(env: &Env<G>, prog: &Program, vs: &[G], n_gates: us
         let n_before = prog.ops[..at].iter().filter(|o| matches!(o, Op::Commit { .. })).count();
         w.insert(n_before, extra_pt);
         push("commitment-extra", "one more commitment".into(), Expect::MustReject, p, w, pc);
+        // an extra commitment that repeats an existing one (same opening, same point)
+        let commit_ops: Vec<(usize, Op)> = prog.ops.iter().cloned().enumerate().filter(|(_, o)| matches!(o, Op::Commit { .. })).collect();
+        for (which, (_, cop)) in commit_ops.iter().enumerate() {
+            if which != 0 && which + 1 != commit_ops.len() {
+                continue;
+            }
+            let mut p = prog.clone();
+            p.ops.insert(at, cop.clone());
+            let mut w = vs.to_vec();
+            w.insert(n_before, vs[which]);
+            push("commitment-extra-duplicate", format!("commitment {} committed a second time", which), Expect::MustReject, p, w, pc);
+        }
         if let Some(i) = last_commit {
             let mut p = prog.clone();
             p.ops.remove(i);
@@ -368,6 +380,42 @@ fn run_case<G: AffineRepr>(env: &Env<G>, c: &Case) -> CaseOut {
         }
         if o.sample.is_none() && d.kind == "commitment-as-user-data" {
             o.sample = Some(json!({"curve": env.curve, "deviation": d.desc, "kind": d.kind, "verdict": res_name(&vo.res), "first_transcript_difference": bound, "program": prog}));
+        }
+    }
+    // ---- the same proof under two opposite deviations of one row, verified as one batch: residuals
+    // that cancel under equal weights must still be rejected
+    if c.only.is_none() {
+        let nc = count_ops(&prog, &|op: &Op| matches!(op, Op::Constrain { .. }));
+        for k in 0..nc.min(3) {
+            let mk = |delta: i64| {
+                let mut p = prog.clone();
+                nth_op_mut(&mut p, &|op: &Op| matches!(op, Op::Constrain { .. }), k, &mut |op| {
+                    if let Op::Constrain { fix, lc } = op {
+                        let nf = match &*fix {
+                            Fix::AsIs | Fix::Balance => Fix::BalanceAs(Lx::Add(Box::new(lc.clone()), Box::new(Lx::K(Sc::I(delta))))),
+                            other => other.clone(),
+                        };
+                        *fix = nf;
+                    }
+                });
+                p
+            };
+            let (pp, pm) = (mk(1), mk(-1));
+            if pp == prog || pm == prog {
+                continue;
+            }
+            o.evals += 1;
+            for (bn, items) in [
+                ("batch[S+1,S-1]", vec![(&pp, &po.vs[..], proof), (&pm, &po.vs[..], proof)]),
+                ("batch[S,S+1,S-1]", vec![(&prog, &po.vs[..], proof), (&pp, &po.vs[..], proof), (&pm, &po.vs[..], proof)]),
+            ] {
+                let (r, _, _) = batch::<G>(env, &items, &env.bp, c.seed ^ 0x5b);
+                if r.is_ok() {
+                    o.violate("batch-accepts-opposite-deviations", format!("{}: one proof verified in a batch under two statements whose row {} constant deviates by +1 and -1 is accepted", bn, k), json!({"program": prog, "row": k}));
+                } else {
+                    o.count(&format!("{} -> {}", bn, res_name(&r)), 1);
+                }
+            }
         }
     }
     o
